@@ -252,8 +252,30 @@ fn multisets_n(ctx: &mut Ctx, conv: &Converter, n: u64) {
                 out.push(("add_fit_add_fit", Totals::of(conv, running.iter())));
                 by_merge.merge(&rest, conv);
                 out.push(("add_fit_merge", Totals::of(conv, by_merge.iter())));
+                // the unit-less groups that hold cookware amounts: the same values (numbers, ranges, texts) added one by
+                // one and merged from up to three sub-groups, also when a sub-group holds texts only or nothing
+                let as_q = |vals: Vec<&Value>| -> Vec<ScaledQuantity> { vals.into_iter().map(|v| Quantity::new(v.clone(), None)).collect() };
+                let mut gv = cooklang::quantity::GroupedValue::empty();
+                let mut vsubs: Vec<cooklang::quantity::GroupedValue> = (0..3).map(|_| cooklang::quantity::GroupedValue::empty()).collect();
+                for (j, i) in order.iter().enumerate() {
+                    gv.add(qs[*i].value());
+                    // texts go to one sub-group, numbers to the others: a text-only group merged into any group
+                    let slot = if matches!(qs[*i].value(), Value::Text(_)) { oi % 3 } else { (j + oi + 1) % 3 };
+                    vsubs[slot].add(qs[*i].value());
+                }
+                let mut vmerged = cooklang::quantity::GroupedValue::empty();
+                for s in &vsubs {
+                    vmerged.merge(s);
+                }
+                let mut into_text_only = vsubs[oi % 3].clone();
+                into_text_only.merge(&vsubs[(oi + 1) % 3]);
+                into_text_only.merge(&vsubs[(oi + 2) % 3]);
+                out.push(("value_add", Totals::of(conv, as_q(gv.iter().collect()).iter())));
+                out.push(("value_merge", Totals::of(conv, as_q(vmerged.iter().collect()).iter())));
+                out.push(("value_merge_into_text_group", Totals::of(conv, as_q(into_text_only.iter().collect()).iter())));
                 out
             });
+            let want_values = Totals::of(conv, qs.iter().map(|q| Quantity::new(q.value().clone(), None)).collect::<Vec<ScaledQuantity>>().iter());
             match res {
                 Err(p) => ctx.panic_violation(&case, "GroupedQuantity", p),
                 Ok(outs) => {
@@ -262,7 +284,7 @@ fn multisets_n(ctx: &mut Ctx, conv: &Converter, n: u64) {
                         if what == "len_mismatch" {
                             ctx.violation(&case, "multiset", "len_differs_from_iter", "GroupedQuantity::len() disagrees with iter().count()".into());
                             ok = false;
-                        } else if let Some(d) = want.diff(&got) {
+                        } else if let Some(d) = (if what.starts_with("value_") { &want_values } else { &want }).diff(&got) {
                             ctx.violation(&case, "multiset", &format!("not_conserved_after_{what}"), format!("{d}; inputs {:?}", qs.iter().map(|q| q.to_string()).collect::<Vec<_>>()));
                             ok = false;
                         }
@@ -694,7 +716,7 @@ fn aisle_for(r: &mut Rng, names: &[String]) -> (String, bool) {
 pub fn run(ctx: &mut Ctx) {
     let conv = Converter::bundled();
     // a converter in which two different units have keys that differ only in case (T = tablespoon, t = teaspoon)
-    if let Some(layer) = toml::from_str::<cooklang::convert::UnitsFile>("[extend.units]\ntbsp = { aliases = [\"T\"] }\ntsp = { aliases = [\"t\"] }\n").ok() {
+    if let Some(layer) = toml::from_str::<cooklang::convert::UnitsFile>("[extend.units]\ntbsp = { aliases = [\"T\"] }\ntsp = { aliases = [\"t\"] }\ng = { aliases = [\"gr\"] }\nl = { names = [\"litro\", \"litros\"] }\n").ok() {
         if let Some(c2) = Converter::builder().with_units_file(cooklang::convert::UnitsFile::bundled()).ok().and_then(|b| b.with_units_file(layer).ok()).and_then(|b| b.finish().ok()) {
             let keep = ctx.tier;
             multisets_n(ctx, &c2, ctx.budget(1_500, 300_000));
